@@ -27,6 +27,7 @@ class Hooks(object):
         self.log = None        # fn(level, msg)
         self.warn = None
         self.fmt = None        # list collecting formatting / str() calls (C20)
+        self.float_sqrt = False  # concrete sqrt evaluated in floating point (as the real code does) instead of exactly
         self.range_cap = None  # bound on every range() of the loaded code (loop unrolling bound, stated per harness)
 
 
@@ -258,6 +259,8 @@ def _CF(s):
 def m_sqrt(x):
     if isinstance(x, SArr):
         raise TypeError("only size-1 arrays can be converted to Python scalars")
+    if HOOKS.float_sqrt and isinstance(x, (int, Fraction)) and x >= 0:
+        return Fraction(math.sqrt(float(x)))
     r = sym.f_sqrt(x, np_sem=False)
     return sym.tofloat(r) if isinstance(r, SFloat) else r
 
